@@ -15,8 +15,8 @@ from harness import orthreg_hist as HST
 ANCHORS = {"src/skmatter/linear_model/_base.py": [
     "OrthogonalRegression.fit", "OrthogonalRegression.predict"]}
 
-FAMILIES = ["noise", "rotation", "rotation_noise", "lowrank_x", "collinear_y"]
-ESTIMATORS = ["default", "lr_nointercept", "ridge_small", "ridge_big", "ridge_nointercept"]
+FAMILIES = ["noise", "rotation", "rotation_noise", "lowrank_x", "collinear_y", "rotation_offset", "shifted"]
+ESTIMATORS = ["default", "lr_nointercept", "ridge_small", "ridge_big", "ridge_nointercept", "ridge_tiny", "lr"]
 RTOL = 1e-7
 GAP = 1e-6            # relative singular-value gap below which a basis-dependent comparison is skipped
 
@@ -54,23 +54,45 @@ def gen_case(rng, quick):
     if fam == "lowrank_x" and p >= 2:
         X = _randn(rng, n, 1) @ _randn(rng, 1, p) + (0 if p < 3 else _randn(rng, n, 1) @ _randn(rng, 1, p))
     projector = rng.random() < 0.5
+    # presentation of the same values: dtype / container / memory order of X, type of the mode flag
+    xkind = rng.choice(HST.X_PRESENT[1:]) if rng.random() < 0.3 else "float64"
+    flag = rng.choice(HST.FLAG_PRESENT[1:]) if rng.random() < 0.15 else "bool"
+    X = HST.values_for(X, xkind)
+    if fam == "shifted":                                   # non-zero column means of X (and of y below)
+        X = HST.values_for(X + np.array([[3.0 * _n(rng) for _ in range(p)]]), xkind) if xkind != "bool" else X
     q = max(p, t)
     Q = _orth(rng, q)
-    if fam in ("rotation", "rotation_noise"):
+    if fam in ("rotation", "rotation_noise", "rotation_offset"):
         # y = pad(X) Q restricted to t columns (an exact rotation when p <= t; for p > t the first
         # t columns of a rotation, i.e. X times a p x t matrix with orthonormal columns)
         Y = (np.pad(X, [(0, 0), (0, q - p)]) @ Q)[:, :t]
         if fam == "rotation_noise":
             Y = Y + 1e-3 * _randn(rng, n, t)
+        if fam == "rotation_offset":                       # exact (partial) rotation plus a constant offset
+            Y = Y + np.array([[2.0 * _n(rng) + 1.0 for _ in range(t)]])
     elif fam == "collinear_y" and t >= 2:
         Y = _randn(rng, n, 1) @ _randn(rng, 1, t)
     else:
         Y = X @ _randn(rng, p, t) + 0.5 * _randn(rng, n, t)
+        if fam == "shifted":                               # offsets from comparable to dominating the signal
+            om = rng.choice([1.0, 5.0, 25.0])
+            Y = Y + np.array([[3.0 * om * _n(rng) for _ in range(t)]])
     scale = rng.choice([1.0, 1.0, 1e-3, 1e3])
     Y = Y * scale
-    case = dict(family=fam, scale=scale, X=X.tolist(), Y=Y.tolist(), Q=Q.tolist(), projector=projector,
+    if fam in ("rotation_offset", "shifted") and projector:
+        est_pool = ["default", "lr", "ridge_tiny", "ridge_small", "lr_nointercept"]   # mostly estimators WITH intercept
+    else:
+        est_pool = ESTIMATORS
+    est_name = rng.choice(est_pool) if projector else "default"
+    if est_name == "ridge_tiny":
+        # Ridge(1e-12) is a well-posed oracle only for a well-conditioned centred X
+        Xc = X - X.mean(axis=0)
+        sv = np.linalg.svd(Xc, compute_uv=False)
+        if n <= p + 1 or sv[-1] <= 1e-3 * sv[0]:
+            est_name = "ridge_small"
+    case = dict(family=fam, scale=scale, xkind=xkind, flag=flag, X=X.tolist(), Y=Y.tolist(), Q=Q.tolist(), projector=projector,
                 y1d=(t == 1 and projector and rng.random() < 0.5),   # padded mode needs 2-D y (y.shape[1])
-                estimator=(rng.choice(ESTIMATORS) if projector else "default"),
+                estimator=est_name,
                 Xnew=_randn(rng, 3, p).tolist(),
                 comp_seed=rng.randint(0, 10 ** 9))
     return case
@@ -80,16 +102,19 @@ def make_estimator(name):
     from sklearn.linear_model import LinearRegression, Ridge
     return {"default": None, "lr_nointercept": LinearRegression(fit_intercept=False),
             "ridge_small": Ridge(alpha=1e-3), "ridge_big": Ridge(alpha=10.0),
-            "ridge_nointercept": Ridge(alpha=0.1, fit_intercept=False)}[name]
+            "ridge_nointercept": Ridge(alpha=0.1, fit_intercept=False),
+            "ridge_tiny": Ridge(alpha=1e-12), "lr": LinearRegression()}[name]
 
 
-def run_impl(case):
+def run_impl(case, present=True):
     from skmatter.linear_model import OrthogonalRegression
-    X = np.array(case["X"], dtype=float)
+    xkind = case.get("xkind", "float64") if present else "float64"
+    X = HST.present(case["X"], xkind)
     Y = np.array(case["Y"], dtype=float)
     y = Y[:, 0] if case["y1d"] else Y
     try:
-        m = OrthogonalRegression(use_orthogonal_projector=case["projector"],
+        m = OrthogonalRegression(use_orthogonal_projector=HST.present_flag(case["projector"],
+                                                                             case.get("flag") if present else "bool"),
                                  linear_estimator=make_estimator(case["estimator"]))
         m.fit(X, y)
         Xn = np.array(case["Xnew"], dtype=float)
@@ -97,7 +122,7 @@ def run_impl(case):
         coef = np.asarray(m.coef_, dtype=float)
         out = dict(coef=np.atleast_2d(coef).tolist(), coef_shape=list(coef.shape),
                    pred=pred.reshape(len(Xn), -1).tolist(), pred_shape=list(np.shape(pred)),
-                   pred_train=m.predict(X).reshape(len(X), -1).tolist())
+                   pred_train=m.predict(X).reshape(len(case["X"]), -1).tolist())
         if not case["projector"]:
             out["max_components"] = int(m.max_components_)
         return out
@@ -133,6 +158,7 @@ def prepare(case, rec):
             Ri = np.array(rec["coef"]).T
             comps += [Ri @ _small_rotation(prng, q, e) for e in (1e-3, 3e-2)] if q >= 2 else []
             comps.append(Ri @ np.diag([-1.0] + [1.0] * (q - 1)))
+        comps.append(u @ vt)          # the polar factor of pad(X)^T pad(y) itself: the fit must not lose against it
         info["comps"] = comps
         info["resid_hint"] = max(float(np.max(np.abs(u.T @ u - np.eye(q)))), float(np.max(np.abs(vt @ vt.T - np.eye(q)))),
                                  float(np.max(np.abs(A.T @ B - (u * w) @ vt))) / (1 + float(w[0])))
@@ -140,7 +166,8 @@ def prepare(case, rec):
         est = make_estimator(case["estimator"])
         est = LinearRegression() if est is None else clone(est)
         y = Y[:, 0] if case["y1d"] else Y
-        est.fit(X, y)
+        xk = case.get("xkind", "float64")
+        est.fit(X if xk == "float32" else HST.present(X, xk), y)      # same container / order as the implementation gets
         Cm = np.reshape(est.coef_.T, (p, -1))
         U, sc, Vt = np.linalg.svd(Cm, full_matrices=False)
         Ap, Bp = X @ U, Y.reshape(n, -1) @ Vt.T
@@ -156,6 +183,11 @@ def prepare(case, rec):
             if r >= 2:
                 comps += [R0 @ _small_rotation(prng, r, e) for e in (1e-3, 3e-2)]
             comps.append(R0 @ np.diag([-1.0] + [1.0] * (r - 1)))
+        if sc[0] > 0 and sc[-1] > GAP * sc[0]:
+            # the polar factor of (X Uc)^T (y Vc): a rotation between the reduced spaces (these are determined
+            # by the linear fit only when its coefficients have full rank - otherwise Uc, Vc of the hint and of
+            # the implementation may span different spaces and the families of competitors differ)
+            comps.append(u @ vt)
         info["comps"] = comps
         info["resid_hint"] = max(float(np.max(np.abs(U.T @ U - np.eye(r)))), float(np.max(np.abs(Vt @ Vt.T - np.eye(r)))),
                                  float(np.max(np.abs(Cm - (U * sc) @ Vt))) / (1 + float(sc[0])),
@@ -179,7 +211,7 @@ def case_coq(case, rec, info):
             C.fmat(case["X"]), C.fmat(case["Y"]), C.fmat(case["Xnew"]), _svdh(info["hint"]), comps,
             rec["max_components"], C.fmat(rec["coef"]), C.fmat(rec["pred"]), C.fl(RTOL), C.fl(atol_of(case)),
             "true" if info["gfull"] else "false", "true" if info["gblock"] else "false")
-    ols = {"lr_nointercept": 1, "default": 2}.get(case["estimator"], 0)
+    ols = {"lr_nointercept": 1, "default": 2, "lr": 2}.get(case["estimator"], 0)
     return ("(let X := %s in let Y := %s in let Cl := %s in let hc := %s in let oc := %s in "
             "proj_case_ok X Y %s Cl hc %s %s oc %s %s %s %s ++ proj_ext_ok X Y Cl hc oc %s %d%%nat)") % (
         C.fmat(case["X"]), C.fmat(case["Y"]), C.fmat(info["C"].tolist()), _svdh(info["hint_c"]), C.fmat(rec["coef"]),
@@ -210,34 +242,35 @@ def oracle(case, rec, info=None):
     Xn = np.array(case["Xnew"], dtype=float)
     pred = np.array(rec["pred"], dtype=float)
     sc = float(np.sum(X * X) + np.sum(Y * Y))
+    T = 1e5 if case.get("xkind") == "float32" else 1.0     # single-precision inputs: sklearn/LAPACK run in float32
     exact = case["family"] == "rotation" and case.get("scale") == 1.0    # y = pad(X) Q[:, :t] exactly
     if not case["projector"]:
         q = max(p, t)
         if rec.get("max_components") != q or list(coef.shape) != [q, q]:
             return "padded mode: coef_ shape %s / max_components_ %s, expected %d" % (coef.shape, rec.get("max_components"), q)
         dev = float(np.max(np.abs(coef @ coef.T - np.eye(q))))
-        if dev > 1e-9:
+        if dev > 1e-9 * T:
             return "coef_ is not orthogonal: max|coef_ coef_^T - I| = %.3g" % dev
         A = np.pad(X, [(0, 0), (0, q - p)])
         B = np.pad(Y, [(0, 0), (0, q - t)])
         res = float(np.sum((B - A @ coef.T) ** 2))
         for Om in info["comps"]:
             ro = float(np.sum((B - A @ Om) ** 2))
-            if ro < res - 1e-7 * (sc + abs(res)):
+            if ro < res - 1e-7 * T * (sc + abs(res)):
                 return "an orthogonal competitor has a smaller training residual: %.12g < %.12g" % (ro, res)
         if exact and p <= t and np.linalg.matrix_rank(X) == p:
-            if res > 1e-14 * sc:
+            if res > 1e-14 * T * T * sc:
                 return "y = pad(X) Q exactly but the training residual is %.3g" % res
             Qm = np.array(case["Q"])
-            if np.max(np.abs(coef.T[:p] - Qm[:p])) > 1e-7:
+            if np.max(np.abs(coef.T[:p] - Qm[:p])) > 1e-7 * T:
                 return "y = pad(X) Q exactly but coef_ does not reproduce Q on X's block"
-        if np.max(np.abs(np.pad(Xn, [(0, 0), (0, q - p)]) @ coef.T - pred)) > 1e-9 * (1 + np.max(np.abs(pred))):
+        if np.max(np.abs(np.pad(Xn, [(0, 0), (0, q - p)]) @ coef.T - pred)) > 1e-9 * T * (1 + np.max(np.abs(pred))):
             return "predict differs from pad(Xnew) @ coef_.T"
         return None
     W = coef.T.reshape(p, t)
-    if np.max(np.abs(W @ W.T @ W - W)) > 1e-9 * (1 + np.max(np.abs(W))):
+    if np.max(np.abs(W @ W.T @ W - W)) > 1e-9 * T * (1 + np.max(np.abs(W))):
         return "coef_ is not a partial isometry: max|W W^T W - W| = %.3g" % float(np.max(np.abs(W @ W.T @ W - W)))
-    if np.any(np.sum(pred * pred, axis=1) > np.sum(Xn * Xn, axis=1) * (1 + 1e-9) + 1e-300):
+    if np.any(np.sum(pred * pred, axis=1) > np.sum(Xn * Xn, axis=1) * (1 + 1e-9 * T) + 1e-300):
         return "a prediction is longer than its input"
     U, s_c, V = info["hint_c"]
     if info.get("grange"):
@@ -245,24 +278,24 @@ def oracle(case, rec, info=None):
         # projectors onto the column / row space of the coefficients of the linear estimator fitted on THIS X, y
         dl = float(np.max(np.abs(W @ W.T - U @ U.T)))
         dr = float(np.max(np.abs(W.T @ W - V @ V.T)))
-        if max(dl, dr) > 1e-7:
+        if max(dl, dr) > 1e-7 * T:
             return ("coef_ is not a partial isometry on the range of the linear fit of this X, y: "
                     "max|W W^T - Uc Uc^T| = %.3g, max|W^T W - Vc Vc^T| = %.3g" % (dl, dr))
     res = float(np.sum((Y - X @ W) ** 2))
     for Om in info["comps"]:
         ro = float(np.sum((Y - X @ U @ Om @ V.T) ** 2))
-        if ro < res - 1e-7 * (sc + abs(res)):
+        if ro < res - 1e-7 * T * (sc + abs(res)):
             return "a rotation between the reduced spaces has a smaller training residual: %.12g < %.12g" % (ro, res)
     if exact and ((case["estimator"] == "lr_nointercept" and np.linalg.matrix_rank(X) == p and n > p)
-                  or (case["estimator"] == "default" and n > p + 1
+                  or (case["estimator"] in ("default", "lr") and n > p + 1
                       and np.linalg.matrix_rank(X - X.mean(axis=0)) == p)):
         q = max(p, t)
         Qp = np.array(case["Q"])[:p, :t]
-        if res > 1e-12 * sc:
+        if res > 1e-12 * T * T * sc:
             return "y = X Q' exactly (Q' a partial rotation) but the training residual is %.3g" % res
-        if np.max(np.abs(W - Qp)) > 1e-6:
+        if np.max(np.abs(W - Qp)) > 1e-6 * min(T, 1e3):
             return "y = X Q' exactly but coef_ does not reproduce Q'"
-    if np.max(np.abs(Xn @ W - pred)) > 1e-9 * (1 + np.max(np.abs(pred))):
+    if np.max(np.abs(Xn @ W - pred)) > 1e-9 * T * (1 + np.max(np.abs(pred))):
         return "predict differs from Xnew @ coef_.T"
     return None
 
@@ -322,13 +355,13 @@ def hist_stats(stats, hist, obs, cl):
 # ----------------------------------------------------------------------------- run
 def run(ctx):
     po = C.proof_obligations(ctx.prop)
-    ncases = 500 if ctx.quick else 8000
-    nhist = 220 if ctx.quick else 800
+    ncases = 800 if ctx.quick else 8000
+    nhist = 320 if ctx.quick else 800
     cases, recs, infos = [], [], []
     stats = dict(families={}, modes={}, relation={}, estimators={}, y1d=0, errors=0, wide=0,
                  exact_rotation=0, skipped=dict(coef_full=0, coef_block=0, proj_coef=0, proj_range=0),
                  compared=dict(coef_full=0, coef_block=0, proj_coef=0, proj_range=0), competitors=0,
-                 normal_equations_checked=0,
+                 normal_equations_checked=0, float32_compared=0, float32_skipped=0, x_presentation={}, flag_presentation={},
                  hint_residual_max=0.0, rank_deficient_cross=0,
                  history=dict(histories=0, ops={}, outcomes={}, refits=0, refit_mode_changed=0,
                               refit_estimator_changed=0, refit_other_shape=0, refit_same_shape_rectangular=0,
@@ -343,6 +376,8 @@ def run(ctx):
                      ("relation", "p<t" if p < t else "p=t" if p == t else "p>t"), ("estimators", c["estimator"])):
             stats[k][v] = stats[k].get(v, 0) + 1
         stats["y1d"] += c["y1d"]
+        for k, v in (("x_presentation", c.get("xkind", "float64")), ("flag_presentation", c.get("flag", "bool"))):
+            stats[k][v] = stats[k].get(v, 0) + 1
         stats["errors"] += "error" in r
         stats["wide"] += info["n"] <= p
         stats["exact_rotation"] += c["family"] == "rotation"
@@ -351,7 +386,7 @@ def run(ctx):
         if c["projector"]:
             stats["compared" if info["gcoef"] else "skipped"]["proj_coef"] += 1
             stats["compared" if info["grange"] else "skipped"]["proj_range"] += 1
-            stats["normal_equations_checked"] += c["estimator"] in ("lr_nointercept", "default")
+            stats["normal_equations_checked"] += c["estimator"] in ("lr_nointercept", "default", "lr")
         else:
             stats["compared" if info["gfull"] else "skipped"]["coef_full"] += 1
             stats["compared" if info["gblock"] else "skipped"]["coef_block"] += 1
@@ -398,7 +433,29 @@ def run(ctx):
             hist_texts[hi] = txt
             stats["history"]["machine_calls_compared"] += len(h["ops"])
 
-    idx = [i for i, r in enumerate(recs) if "error" not in r]
+    # float32 presentations run in single precision inside sklearn/LAPACK: not comparable at rtol 1e-7 with the
+    # binary64 model; they are compared with the float64 fit of the same values at 1e-4 when well conditioned
+    f32 = [i for i, c in enumerate(cases) if c.get("xkind") == "float32"]
+    f32_bad = {}
+    for i in f32:
+        r, info = recs[i], infos[i]
+        if "error" in r:
+            continue
+        w, sc = info["sig"], info.get("sig_c")
+        Xc = np.array(cases[i]["X"]) - np.mean(np.array(cases[i]["X"]), axis=0)
+        sx = np.linalg.svd(Xc, compute_uv=False)
+        okc = w[0] > 0 and w[-1] > 1e-2 * w[0] and (sc is None or (sc[0] > 0 and sc[-1] > 1e-2 * sc[0])) \
+            and info["n"] > info["p"] + 1 and sx[-1] > 1e-2 * sx[0]
+        if not okc:
+            stats["float32_skipped"] += 1
+            continue
+        ref = run_impl(cases[i], present=False)
+        stats["float32_compared"] += 1
+        a, b = np.array(r["pred_train"]), np.array(ref.get("pred_train", []))
+        if "error" in ref or a.shape != b.shape or r["coef_shape"] != ref["coef_shape"] \
+                or np.max(np.abs(a - b)) > 1e-4 * (1.0 + np.max(np.abs(b))):
+            f32_bad[i] = ["float32 X: fit differs from the float64 fit of the same values"]
+    idx = [i for i, r in enumerate(recs) if "error" not in r and cases[i].get("xkind") != "float32"]
     texts = {i: case_coq(cases[i], recs[i], infos[i]) for i in idx}
     groups, cur, cur_sz = [], [], 0
     for i in idx:
@@ -469,6 +526,7 @@ def run(ctx):
                 hist_bad.setdefault(hg[k], []).append(
                     "state machine Model/OrthRegHist.v disagrees at call(s) %s"
                     % ", ".join("%d (%s)" % (j, h["ops"][j]["op"] if j < len(h["ops"]) else "?") for j in fails))
+    mismatched.update(f32_bad)
     for i, r in enumerate(recs):
         if "error" in r:
             mismatched.setdefault(i, []).append("raised")
